@@ -287,7 +287,7 @@ def fixed_cases():
         cs.append("B " + chunks(w))
     for w in [b"<abc", b"<abc\n", b"<abc>", b'"abc"', b'"abc', b"abc", b"", b" <a b>", b"+x>"]:
         cs.append("H " + chunks(w))
-    cs += ["Q I4c S0.616263.", "Q I7472756531", "Q S0.2261.", "Q C0.27.", "Q S2.225c22.5f6b C16.275c6e.", "Q P31652b35 O2b P2e35",
+    cs += ["Q I4c S0.616263.", "Q I7472756531", "Q S0.2261.", "Q C0.27.", "Q S2.22615c6e.5f6b C16.275c6e.", "Q P31652b35 O2b P2e35",
            "Q S1.6162.", "Q K2f2a2f20782a2f", "Q K2f2a205c2a2f I78 K2f2a2a2f"]
     return cs
 
